@@ -765,7 +765,7 @@ def specs(draw, gate: Gate | None = None, max_schemas: int = 5, max_ops: int = 4
             op_["tags"] = [tag]
     if len(all_ops) >= 2 and g.flag(draw, "tag_variant", 1, 8):
         # one tag written with different word boundaries / separators (still one tag group by alphanumeric content)
-        cluster = draw(st.sampled_from([["data-sources", "data_sources", "dataSources"], ["user groups", "user-groups", "userGroups"]]))
+        cluster = draw(st.sampled_from([["data-sources", "data_sources", "dataSources", "datasources", "DataSources"], ["user groups", "user-groups", "userGroups", "usergroups"]]))
         for (p_, m_, op_) in all_ops:
             op_["tags"] = [draw(st.sampled_from(cluster))]
     spec: dict[str, Any] = {
